@@ -97,6 +97,12 @@ def run(ctx):
         ctx.note("python 2.7 not found: contrib/frame_parser.py not exercised")
     ctx.extra["python_codec_records"] = npy
     ctx.extra["frame_parser_records"] = n2
+    for r in recs:   # TLC's JSON reader has no null
+        for rd in r["readers"].values():
+            rd["hdr"] = rd.get("hdr") or []
+            rd["rest"] = rd.get("rest") or []
+        r["added"] = r.get("added") or []
+        r["extra"] = r.get("extra") or []
     txt = "\n".join(json.dumps(r, separators=(",", ":")) for r in recs) + "\n"
     rv = ctx.tlc("WireRecs", "WireRecs.cfg", workers=1, timeout=1800, extra_files={"wire_recs.ndjson": txt}, heap="8g")
     if not rv.ok:
